@@ -1,6 +1,8 @@
 package main
 
 import (
+	"strings"
+	"path"
 	"fmt"
 	"go/constant"
 	"go/token"
@@ -393,6 +395,9 @@ func (fr *frame) eval1(v ssa.Value) absVal {
 }
 
 func (fr *frame) callResult(call *ssa.Call) []absVal {
+	if r, ok := fr.pureLibrary(call); ok {
+		return r
+	}
 	g := call.Common().StaticCallee()
 	if g == nil || !fr.ev.p.InModule(g) || fr.ev.depth >= 5 {
 		return nil
@@ -526,4 +531,103 @@ func (fr *frame) binop(x *ssa.BinOp) absVal {
 		return out
 	}
 	return absTop
+}
+
+// pureLibrary folds calls of side-effect-free string and path functions of the
+// standard library whose arguments all evaluate to single constants (constant
+// folding across documented pure functions; nothing of the module is run).
+func (fr *frame) pureLibrary(call *ssa.Call) ([]absVal, bool) {
+	one := func(v ssa.Value) (string, bool) {
+		a := fr.eval(v)
+		if a.isTop() || a.obj != nil || len(a.vals) != 1 || a.vals[0].Kind() != constant.String {
+			return "", false
+		}
+		return constant.StringVal(a.vals[0]), true
+	}
+	if b, ok := call.Call.Value.(*ssa.Builtin); ok {
+		if b.Name() == "len" && len(call.Call.Args) == 1 {
+			if s, ok := one(call.Call.Args[0]); ok {
+				return []absVal{absConst(constant.MakeInt64(int64(len(s))))}, true
+			}
+		}
+		return nil, false
+	}
+	o := calleeObj(call)
+	if o == nil || o.Pkg() == nil {
+		return nil, false
+	}
+	str := func(s string) []absVal { return []absVal{absConst(constant.MakeString(s))} }
+	bl := func(b bool) []absVal { return []absVal{absBool(b)} }
+	args := call.Call.Args
+	switch o.Pkg().Path() + "." + o.Name() {
+	case "strings.HasPrefix", "strings.HasSuffix", "strings.Contains", "strings.ContainsAny", "strings.TrimPrefix", "strings.TrimSuffix", "strings.TrimLeft", "strings.TrimRight":
+		if len(args) != 2 {
+			return nil, false
+		}
+		a, ok1 := one(args[0])
+		b, ok2 := one(args[1])
+		if !ok1 || !ok2 {
+			return nil, false
+		}
+		switch o.Name() {
+		case "HasPrefix":
+			return bl(strings.HasPrefix(a, b)), true
+		case "HasSuffix":
+			return bl(strings.HasSuffix(a, b)), true
+		case "Contains":
+			return bl(strings.Contains(a, b)), true
+		case "ContainsAny":
+			return bl(strings.ContainsAny(a, b)), true
+		case "TrimPrefix":
+			return str(strings.TrimPrefix(a, b)), true
+		case "TrimSuffix":
+			return str(strings.TrimSuffix(a, b)), true
+		case "TrimLeft":
+			return str(strings.TrimLeft(a, b)), true
+		case "TrimRight":
+			return str(strings.TrimRight(a, b)), true
+		}
+	case "path.Clean", "path.Base", "path.Dir", "strings.ToLower", "strings.TrimSpace":
+		if len(args) != 1 {
+			return nil, false
+		}
+		a, ok := one(args[0])
+		if !ok {
+			return nil, false
+		}
+		switch o.Name() {
+		case "Clean":
+			return str(path.Clean(a)), true
+		case "Base":
+			return str(path.Base(a)), true
+		case "Dir":
+			return str(path.Dir(a)), true
+		case "ToLower":
+			return str(strings.ToLower(a)), true
+		case "TrimSpace":
+			return str(strings.TrimSpace(a)), true
+		}
+	case "path.Join":
+		if len(args) != 1 {
+			return nil, false
+		}
+		sl, ok := args[0].(*ssa.Slice)
+		if !ok {
+			return nil, false
+		}
+		al, ok := sl.X.(*ssa.Alloc)
+		if !ok {
+			return nil, false
+		}
+		var parts []string
+		for _, w := range elemWrites(al) {
+			p1, ok := one(w.Val)
+			if !ok {
+				return nil, false
+			}
+			parts = append(parts, p1)
+		}
+		return str(path.Join(parts...)), true
+	}
+	return nil, false
 }
